@@ -515,7 +515,9 @@ func (s *Sim) DrawStoreFaultOp(t *rapid.T) *StoreFaultOp {
 			}
 		}
 		return &StoreFaultOp{Kind: kind, Class: class, Desc: fmt.Sprintf("insert tx%d unconfirmed with its credits", i),
-			Run: func(st *wtxmgr.Store, ns walletdb.ReadWriteBucket) (string, error) { return "", s.deliverTo(st, ns, i, nil) }}
+			Run: func(st *wtxmgr.Store, ns walletdb.ReadWriteBucket) (string, error) {
+				return "", s.deliverTo(st, ns, i, nil)
+			}}
 	case "insert-confirmed":
 		b, class := s.drawBlock(t)
 		if b == nil {
